@@ -11,11 +11,11 @@ from vverif.core import Component, Result
 from vverif.oracles import geom
 
 RULE = ("cases = (cone, list of points); oracle = brute-force dominance matrix (exact rationals for "
-        "dyadic cones and the orthant, 1e-9 facet band for irrational bundled cones); non-trivial = "
+        "dyadic cones and the orthant, 1e-9 relative facet band for irrational bundled cones); non-trivial = "
         ">=3 points with at least one strictly dominated point and (a duplicate value or >=2 Pareto values)")
 ASSUMPTIONS = [
     "cones are pointed and solid (VOPy's standing assumption)",
-    "all coordinates are dyadic rationals of magnitude < 2^23, so every facet product is exact in float64",
+    "all coordinates are dyadic rationals with < 30 significant bits (times a power of two), so every facet product is exact in float64",
 ]
 
 EXACT_CONES_2D = [
@@ -45,8 +45,9 @@ def check(case):
     labels = list(gen.cone_labels(spec)) + [f"n={'1' if n == 1 else '2-5' if n <= 5 else '6-50' if n <= 50 else '>50'}"]
     if not is_exact(spec):
         V = np.abs((P[:, None, :] - P[None, :, :]) @ W.T)
-        nz = np.abs(P[:, None, :] - P[None, :, :]).max(axis=-1) > 0
-        if np.any((V < 1e-9) & nz[:, :, None]):
+        dn = np.abs(P[:, None, :] - P[None, :, :]).max(axis=-1)  # differences are exact; the band is relative to them
+        nz = dn > 0
+        if np.any((V < 1e-9 * dn[:, :, None]) & nz[:, :, None]):
             return Result.indet(labels + ["boundary-pair-irrational-cone"])
     D = geom.dominance_matrix(P, W, exact=is_exact(spec))  # D[i,j]: i weakly dominates j
     strict = D & ~D.T
@@ -128,6 +129,10 @@ def st_case(draw, maxn=60):
     if off:
         sgn = [draw(st.sampled_from([1, -1])) for _ in range(m)]
         pts = [[x + s_ * off for x, s_ in zip(p, sgn)] for p in pts]
+    # ... and positively homogeneous: power-of-two rescaling (exact) to very small / large magnitudes
+    k = draw(st.sampled_from([0, 0, 0, 0, -30, -60, 20]))
+    if k:
+        pts = [[x * 2.0 ** k for x in p] for p in pts]
     return {"cone": spec, "points": pts}
 
 
